@@ -8,9 +8,8 @@ PROP = dict(
                        "C15_reassociation_counterexample"],
     harness_bin="c15",
     mismatch_is_violation=True,
-    rule="operand pairs: the 25 known trouble spots, then (quick) 220 seeded draws from the 49x49 boundary grid "
-         "and 120 random pairs / (thorough) the whole grid and 4000 random pairs; each pair x 6 operators x 5 operand "
-         "forms (var/var, literal/literal=folded, var/literal=*Imm, compound assignment with literal and with variable) "
+    rule="operand pairs: the 25 known trouble spots, then (quick) 220 seeded draws from the 48x48 boundary grid "
+         "and 120 random pairs / (thorough) the whole grid and 4000 random pairs; each pair x 6 operators x 5 operand forms (`^` has no compound assignment: 3 forms; the others: var/var, literal/literal=folded, var/literal=*Imm, compound assignment with literal and with variable) "
          "+ unary minus; plus chains `(x op1 c1) op2 c2` (variable x near MIN/MAX/half-range, two literal operands, every pair of + - * / %, 10 fixed + 700 quick / 20000 thorough, three placements: top level, function body, let destination) whose first inexact step must decide the outcome; each compiled and run by the real compiler and VM; distinct = distinct (form, op, a, b); "
          "non-trivial = the answer is an error or one operand has magnitude >= 2^31",
     nontrivial=lambda req, imp: imp.startswith("err") or any(len(w.lstrip("-")) >= 10 for w in req.split()[3:5] if w.lstrip("-").isdigit()),
